@@ -24,14 +24,17 @@ LEAN_TARGETS = ["PpciVerif.Props.C15", "Drivers.C15", "Drivers.IR"]
 LEVEL = "proof"
 LEVEL_TEXT = (
     "Lean theorems about an executable model of the IR text writer (ir.py __str__ methods + Writer), the tokenizer and the "
-    "recursive-descent Reader, for ALL modules of an explicitly delimited fragment (Model.IRFrag.fragText: unambiguous names, "
-    "ppci's constructor type checks, lexable identifiers, finite float constants, no inline asm): reading the printed text "
-    "succeeds, yields the module itself up to the order of phi inputs, printing that module gives the same text, and the phi "
-    "values Spec.IR computes do not depend on that order. Forward references (values, functions, blocks used before their "
-    "definition) through typed placeholders are covered. Each excluded construct has a Lean-proved counterexample replayed on "
-    "the real code. The model is tied to ppci by a differential run on every check (text equality, read-back equality).")
+    "recursive-descent Reader, for ALL modules of an explicitly delimited decidable fragment (Model.IRFrag.fragText: unambiguous "
+    "names, ppci's constructor type checks, lexable identifiers, finite float constants, no inline asm): reading the token "
+    "sequence the writer emits succeeds and yields the module itself up to the order of phi inputs (a dictionary in ppci), "
+    "printing that module gives the same text character by character, and the phi values Spec.IR computes do not depend on that "
+    "order. Forward references (values, functions, blocks used before their definition) through typed placeholders are covered. "
+    "The step from characters to tokens is a hypothesis of the character-level theorem that is evaluated by the Lean tokenizer for "
+    "every module of every run. Each excluded construct has a Lean-proved counterexample replayed on the real code. The model is "
+    "tied to ppci by a differential run on every check (text equality, read-back equality).")
 LEVEL_NOTE = (
     "partial: the guard excludes inline asm, non-finite floats, values named like a global (name capture), non-identifier names; "
+    "tokenize(print m) = tokens(m) is evaluated per module, not proved for all modules; "
     "float <-> decimal text is a parameter (CPython's str/float are the oracle, assumption float(str(x)) == x for finite x); "
     "behavioural equality of the re-read module is proved only for the phi evaluation (the one place where the modules differ) "
     "and otherwise compared on samples by the Spec.IR interpreter; model <-> source correspondence is sampled, not proved")
@@ -100,7 +103,7 @@ def collect(ctx):
     cases = []
     for label, m, reason, _ in K.corner_modules():
         cases.append({"label": label, "module": m, "gen": None, "expect": reason})
-    n = 150 if ctx.thorough else 10
+    n = 80 if ctx.thorough else 10
     for label, g in K.generated(ctx, n, cover):
         cases.append({"label": label, "module": g.module, "gen": g, "expect": None})
     # generated modules carrying one excluded construct
